@@ -126,8 +126,8 @@ func (s *fastSink) readAvailable(out [][]byte) [][]byte {
 
 func (s *fastSink) drain(expect int) [][]byte {
 	out := s.readAvailable(nil)
-	deadline := time.Now().Add(2 * time.Second)
-	for len(out) < expect && time.Now().Before(deadline) {
+	start := aliveNow() // (two seconds of running time, not of wall clock: see aliveNow)
+	for len(out) < expect && aliveNow()-start < 2*time.Second {
 		time.Sleep(100 * time.Microsecond)
 		out = s.readAvailable(out)
 	}
@@ -137,8 +137,8 @@ func (s *fastSink) drain(expect int) [][]byte {
 // drainUntil reads until done(datagrams so far) holds or two seconds have passed.
 func (s *fastSink) drainUntil(done func([][]byte) bool, have ...[]byte) [][]byte {
 	out := s.readAvailable(append([][]byte{}, have...))
-	deadline := time.Now().Add(2 * time.Second)
-	for !done(out) && time.Now().Before(deadline) {
+	start := aliveNow()
+	for !done(out) && aliveNow()-start < 2*time.Second {
 		time.Sleep(100 * time.Microsecond)
 		out = s.readAvailable(out)
 	}
